@@ -90,15 +90,21 @@ theorem jsonFromL_map (fm : FloatModel) (xs : List Json)
   | cons x xs ih => simp [jsonFromL, h x (by simp), ih (fun y hy => h y (by simp [hy]))]
 
 theorem jsonFromO_map (fm : FloatModel) (kvs : List (String × Json))
+    (hd : kvs.Pairwise (fun a b => a.1 ≠ b.1))
     (h : ∀ kv ∈ kvs, jsonFrom fm (jsonToDM kv.2) = some kv.2) :
     jsonFromO fm (kvs.map (fun kv => (DM.text kv.1, jsonToDM kv.2))) = some kvs := by
   induction kvs with
   | nil => simp [jsonFromO]
   | cons kv kvs ih =>
     obtain ⟨k, v⟩ := kv
+    rw [List.pairwise_cons] at hd
     have h1 := h (k, v) (by simp)
     simp only at h1
-    simp [jsonFromO, h1, ih (fun y hy => h y (by simp [hy]))]
+    have hno : kvs.any (fun kv => kv.1 == k) = false := by
+      rw [List.any_eq_false]
+      intro x hx
+      simpa using fun e => hd.1 x hx e.symm
+    simp [jsonFromO, h1, ih hd.2 (fun y hy => h y (by simp [hy])), hno]
 
 theorem jsonFrom_jsonToDM (fm : FloatModel) : ∀ j : Json, j.WF fm = true →
     jsonFrom fm (jsonToDM j) = some j := by
@@ -128,7 +134,7 @@ theorem jsonFrom_jsonToDM (fm : FloatModel) : ∀ j : Json, j.WF fm = true →
   | hobj kvs ih =>
     intro h
     simp only [Json.WF, Json.WFO_iff] at h
-    simp [jsonToDM, jsonFrom, jsonToDMO_eq, jsonFromO_map fm kvs (fun kv hkv => ih kv hkv (h.1 kv hkv))]
+    simp [jsonToDM, jsonFrom, jsonToDMO_eq, jsonFromO_map fm kvs h.2 (fun kv hkv => ih kv hkv (h.1 kv hkv))]
 
 theorem normalizeJson_jshape (fm : FloatModel) (j : Json) (h : j.WF fm = true) :
     normalizeJson fm (jshape j) = .json j := by
